@@ -98,7 +98,8 @@ StringDictionaryRPHTFC::StringDictionaryRPHTFC(IteratorDictString *it,
     pbeg++;
     bucket++;
 
-    if ((ptrpdict + (size_t)(bucketsize * maxlength)) > reservedInts)
+    while ((ptrpdict + (size_t)bucketsize * ((size_t)maxlength + 6)) >
+           reservedInts)
       reservedInts = Reallocate(&rpdict, reservedInts);
 
     // Stores the last position with 0 to avoid confusions with 0 values
